@@ -66,6 +66,22 @@ def series_runs(ctx, rng, count):
     bad = 0
     toks = [b"p.patch", b"-p1", b"-p", b"1", b"-R", b"--strip=2", b"--strip", b"-pX", b"-p-1", b"-p99999999999999999999",
             b"#c", b"", b" ", b"\t", b"\xff\xfe", b"--", b"-x", b"--reverse", b"q.patch", b"-p1 -p2", b"\"p.patch\""]
+    # fixed cases first: a count that overflows when added to the applied patches; a strip level in the billions
+    fixed = [(b"p.patch\nq.patch\n", b"p.patch\n", ["18446744073709551615"]),
+             (b"p.patch\nq.patch\n", b"p.patch\n", ["9223372036854775807", "-q"]),
+             (b"p.patch -p4000000000\n", None, ["-a"]),
+             (b"p.patch -p18446744073709551615\n", None, ["-a", "-q"]),
+             (b"p.patch --strip=18446744073709551616\n", None, ["-a"])]
+    for series, applied, args in fixed:
+        d = ws.make_workspace({"f": (b"aaa\n", None)}, {"p.patch": b"--- a/f\n+++ b/f\n@@ -1 +1 @@\n-aaa\n+bbb\n", "q.patch": b""},
+                              series, applied, prefix="c11s")
+        rc, out = ws.run_push(ctx.binary, d, args, timeout=15)
+        if rc not in (0, 1):
+            bad += 1
+            ctx.violation({"kind": "tool-crash-or-hang-on-series", "series_hex": l2gen.hexs(series),
+                           "applied_hex": l2gen.hexs(applied) if applied is not None else None, "args": args,
+                           "exit": rc, "output_tail": out[-600:].decode("latin-1")})
+        ws.cleanup(d)
     for _ in range(count):
         lines = []
         for _ in range(rng.randint(0, 4)):
